@@ -84,7 +84,7 @@ StructEvents(s) ==
       NN == {0, 3, 4, 8}
   IN { Rec("allocate", a, k, g, <<>>, 0, "") : a \in AA, k \in NN, g \in BOOLEAN }
      \cup { Rec("allocate_at_end", 0, k, FALSE, <<>>, 0, "") : k \in {0, 3, 4} }
-     \cup { Rec("s_allocate", a, k, g, <<>>, 0, "") : a \in {0, 4, n}, k \in {0, 4}, g \in BOOLEAN }
+     \cup { Rec("s_allocate", a, k, g, <<>>, 0, "") : a \in {0, 4, n, n + 4}, k \in {0, 4}, g \in BOOLEAN }
      \cup { Rec("deallocate", a, k, g, <<>>, 0, "") : a \in AA \cup {MAXU - 3}, k \in NN \cup {MAXU - 3, MAXU}, g \in BOOLEAN }
      \cup { Rec("truncate", a, 0, FALSE, <<>>, 0, "") : a \in {0, 4, 8, n, n + 4} }
 
